@@ -17,6 +17,7 @@ import PydapModel.Subset
 import Proofs.Subset
 import Proofs.EndToEnd
 import Proofs.EndToEndGrid
+import Proofs.EndToEndText
 import Props.C03
 namespace Pydap.C02
 open Pydap
@@ -368,6 +369,48 @@ theorem C02_e2e_grid_ellipsis (ty : Xdr.Ty) (shape : List Nat) (vals : List Xdr.
     exact E2E.fetchGrid_map true ty shape vals maps pre _ j _ hj (by omega) hpl
       (hwm j (by omega) hj) hne (hmaps j hj).1 hvj.1 hvj.2
 
+/-! ### (B) the same through the response text
+
+  `E2E.fetchArrayText` additionally runs the server's DDS printer (`Dds.printDs`, C07) on the constrained
+  variable, concatenates `dds ‖ "Data:\n" ‖ xdr` (`Xdr.body`, C05), and on the client side
+  `safe_dds_and_data`'s split (`Xdr.splitBody`), the DDS parser (`Dds.parseDds`, on the text *without* its final
+  newline, as the client receives it), the conversion of the parsed declaration to the decoder's declaration
+  (`E2E.tmplOfDataset`) and `Xdr.decImpl`.  Remaining hypothesis about text: `E2E.TextOk` — the printed DDS is
+  ASCII and no newline in it is followed by `D` (decidable per dataset; checked on every real body). -/
+
+/-- **(B) array through the response text, no Ellipsis**: the values decoded are numpy's `source[pre][idx]`, and
+    the declaration the client holds is the printed one: dataset and variable name, parser dtype of `ty`, the
+    constrained shape, the dimension names. -/
+theorem C02_e2e_array_text (dsName name : Dds.Text) (dims : List Dds.Text) (ty : Xdr.Ty) (shape : List Nat)
+    (vals : List Xdr.Val) (pre : List PSlice) (idx : List Idx)
+    (hw : E2E.WFArr ty shape vals) (hpl : pre.length ≤ shape.length) (h : NoEll idx)
+    (hl : idx.length ≤ shape.length)
+    (hv : ValidList shape (padPre pre shape.length) (npExpand idx none shape.length))
+    (hds : Dds.NameOk dsName) (hn : Dds.NameOk name) (hdn : ∀ x ∈ dims, Dds.NameOk x)
+    (hd : dims = [] ∨ dims.length = shape.length)
+    (htext : ∀ cshape, E2E.TextOk (E2E.answerDs dsName name dims ty cshape)) :
+    ∃ cshape vs,
+      E2E.numpyIndex shape vals (padPre pre shape.length) (npExpand idx none shape.length) = some (cshape, vs) ∧
+      E2E.fetchArrayText dsName name dims ty shape vals pre idx
+        = .ok (Dds.normDs (E2E.answerDs dsName name dims ty cshape), .tuple [E2E.dataOf cshape vs], []) :=
+  E2E.fetchArrayText_spec dsName name dims ty shape vals pre idx _ hw hpl
+    (fun cshape hc => by rw [fixSlice_noEll idx cshape h (by omega), hc]) hv hds hn hdn hd htext
+
+theorem C02_e2e_array_text_ellipsis (dsName name : Dds.Text) (dims : List Dds.Text) (ty : Xdr.Ty) (shape : List Nat)
+    (vals : List Xdr.Val) (pre : List PSlice) (a b : List Idx)
+    (hw : E2E.WFArr ty shape vals) (hpl : pre.length ≤ shape.length)
+    (ha : NoEll a) (hb : NoEll b) (hl : a.length + b.length ≤ shape.length)
+    (hv : ValidList shape (padPre pre shape.length) (npExpand a (some b) shape.length))
+    (hds : Dds.NameOk dsName) (hn : Dds.NameOk name) (hdn : ∀ x ∈ dims, Dds.NameOk x)
+    (hd : dims = [] ∨ dims.length = shape.length)
+    (htext : ∀ cshape, E2E.TextOk (E2E.answerDs dsName name dims ty cshape)) :
+    ∃ cshape vs,
+      E2E.numpyIndex shape vals (padPre pre shape.length) (npExpand a (some b) shape.length) = some (cshape, vs) ∧
+      E2E.fetchArrayText dsName name dims ty shape vals pre (a ++ Idx.ell :: b)
+        = .ok (Dds.normDs (E2E.answerDs dsName name dims ty cshape), .tuple [E2E.dataOf cshape vs], []) :=
+  E2E.fetchArrayText_spec dsName name dims ty shape vals pre _ _ hw hpl
+    (fun cshape hc => by rw [fixSlice_ell a b cshape ha hb (by omega), hc]) hv hds hn hdn hd htext
+
 def exVals : List Xdr.Val := [.num 10, .num 11, .num 12, .num 13, .num 14, .num 15, .num 16, .num 17, .num 18, .num 19]
 
 /-- Int16 source `[10,11,…,19]`, `a[0:2:9]` in the URL, then `[1:3]`: numpy gives shape `(2,)`, values 12, 14 -/
@@ -419,5 +462,21 @@ example : (E2E.fetchGrid true .int32 [2, 3] exGridVals exGridMaps [] [Idx.int 1]
       = E2E.numpyIndex [2] [Xdr.Val.num 4607182418800017408, .num 0] [PSlice.all] [Idx.int 1] from rfl, this] at h1
   cases h1
   exact ⟨hlen, h2⟩
+
+/-- the text hypothesis of (B) holds for `Dataset {\n    Int16 a[m0 = 2];\n} ds;` and the names are in C07's domain -/
+example : E2E.TextOk (E2E.answerDs "ds".toList "a".toList ["m0".toList] .int16 [2]) := by
+  intro s0 h
+  have hp : Dds.printDs (E2E.answerDs "ds".toList "a".toList ["m0".toList] .int16 [2])
+      = .ok ("Dataset {\n    Int16 a[m0 = 2];\n} ds;".toList ++ ['\n']) := by
+    have l1 : Dds.lookup Gen.NUMPY_TO_DAP2_TYPEMAP (Dds.dtypeChar ['h']) = some "Int16".toList := by decide
+    have i2 : intText 2 = ['2'] := by simp [intText, natDigits, digitChar]
+    simp [E2E.answerDs, E2E.ddsBase, E2E.npChar, Dds.printDs, Dds.printL, Dds.printT, Dds.printBase, l1,
+      Dds.shapeText, Dds.dimText, Dds.indent, Dds.closeText, i2]
+  rw [hp] at h
+  have := List.append_cancel_right (Except.ok.inj h)
+  subst this
+  exact ⟨by decide, by decide⟩
+example : Dds.NameOk "ds".toList ∧ Dds.NameOk "a".toList ∧ Dds.NameOk "m0".toList :=
+  ⟨⟨by decide, by decide⟩, ⟨by decide, by decide⟩, ⟨by decide, by decide⟩⟩
 
 end Pydap.C02
